@@ -25,3 +25,19 @@ package blockchain
 //@   atcall processorContext.verifyCommit requires [commitOfSecondForFirst] blockID == firstID && commit == types.lastCommitOf(second) && height == types.blockHeightOf(first)
 //@   atcall processorContext.saveBlock requires [savedOnlyAfterVerification] outer(err) == nil && block == first
 //@   atcall processorContext.applyBlock requires [appliedOnlyAfterVerification] outer(err) == nil && block == first && blockID == firstID
+
+// ---------------------------------------------------------------- C18: block-sync messages are validated before use
+// A block response is accepted only if its block decodes AND passes the block's own validation
+// (BlockFromProto ends in ValidateBasic); the other messages have their height fields checked.
+//@ func ValidateMsg(pb proto.Message) (err error)
+//@   for C18
+//@   safe
+//@   requires dyntype(pb) == typeid(*bcproto.BlockRequest) ==> unbox(pb, *bcproto.BlockRequest) != nil     // DecodeMsg hands over the inner message gogo/protobuf allocated
+//@   requires dyntype(pb) == typeid(*bcproto.BlockResponse) ==> unbox(pb, *bcproto.BlockResponse) != nil
+//@   requires dyntype(pb) == typeid(*bcproto.NoBlockResponse) ==> unbox(pb, *bcproto.NoBlockResponse) != nil
+//@   requires dyntype(pb) == typeid(*bcproto.StatusResponse) ==> unbox(pb, *bcproto.StatusResponse) != nil
+//@   modifies *
+//@   atcall BlockFromProto requires [theResponsesBlockIsFullyValidated] bp == unbox(pb, *bcproto.BlockResponse).Block && hasher != nil
+//@   ensures [nilRejected] pb == nil ==> err != nil
+//@   ensures [requestHeightPositive] err == nil && dyntype(pb) == typeid(*bcproto.BlockRequest) ==> unbox(pb, *bcproto.BlockRequest).Height >= 1
+//@   ensures [statusRangeOrdered] err == nil && dyntype(pb) == typeid(*bcproto.StatusResponse) ==> old(unbox(pb, *bcproto.StatusResponse).Base) <= old(unbox(pb, *bcproto.StatusResponse).Height)
